@@ -275,6 +275,15 @@ def decodeItems {α : Type} (codec : Codec) : List (Bytes × α) → Except CErr
 def cmapAll (chain : Chain) (codec : Codec) : Except CErr (List (Nat × Nat)) :=
   decodeItems codec (allItemsFiles chain.reverse Gen.limits_MaxCMapMappings)
 
+/-! ## `File.Codec`: the code space of a chain -/
+
+/-- the ranges `File.Codec()` collects: the file's own, then its parent's, … (`cs = append(cs,
+f.CodeSpaceRange...)` along the `Parent` pointers) -/
+def chainCodeSpace (chain : Chain) : CSR := chain.flatMap (·.csr)
+
+/-- `File.Codec()` -/
+def chainCodec (chain : Chain) : Except CErr Codec := newCodec (chainCodeSpace chain)
+
 /-! ## `Extract`: which parent a CMap stream gets (`usecmap`) -/
 
 /-- the `/UseCMap` entry of the stream dictionary: absent, a name (which is or is not the name of
@@ -287,9 +296,11 @@ inductive UseCMapEntry where
 
 /-- the parent `Extract` installs -/
 inductive ParentRes where
-  | none        -- no parent (also: a name that is not a predefined CMap; the error is dropped)
+  | none        -- no parent (also: `usecmap` with a name that is not predefined; the error is dropped)
   | predefined  -- `Predefined(name)`
   | embedded    -- the CMap extracted from the referenced stream
+  | error       -- `Extract` fails as a whole (a `/UseCMap` NAME that is not a predefined CMap: the
+                -- error of `Predefined` is not a MalformedFileError, so `IsReadError` lets it through)
   deriving DecidableEq, Repr
 
 /-- `Extract` (font/cmap/file.go): `if useCMap := dict["UseCMap"]; useCMap != nil { Decode(useCMap,
@@ -299,7 +310,7 @@ def resolveParent (dict : UseCMapEntry) (psName : Option Bool) : ParentRes :=
   match dict with
   | .stream => .embedded
   | .name true => .predefined
-  | .name false => .none
+  | .name false => .error
   | .absent =>
     match psName with
     | some true => .predefined
@@ -380,6 +391,23 @@ def tuNeedsList (v0 : Text) : (j : Nat) → List Text → Bool
   | _, [] => false
   | j, v :: vs => if v != nextString v0 j then true else tuNeedsList v0 (j + 1) vs
 
+/-- `utf16.Encode` of one rune (a rune that is not a scalar value is encoded as U+FFFD) -/
+def utf16Rune (r : Nat) : List Nat :=
+  if r < 0x10000 then (if 0xD800 ≤ r && r ≤ 0xDFFF then [0xFFFD] else [r])
+  else if r ≤ 0x10FFFF then [0xD800 + (r - 0x10000) / 0x400, 0xDC00 + (r - 0x10000) % 0x400]
+  else [0xFFFD]
+
+/-- `utf16.Encode([]rune(s))` -/
+def utf16Text (t : Text) : List Nat := t.flatMap utf16Rune
+
+/-- the guard added by the fix D-C13-2: the compact bfrange form increments the LAST BYTE of the
+UTF-16BE destination (ISO 32000-2, 9.10.3), which must not overflow:
+`len(u) == 0 || int(u[len(u)-1]&0xff)+(i-start-1) > 255` -/
+def tuLastByteOverflows (v0 : Text) (n : Nat) : Bool :=
+  match (utf16Text v0).getLast? with
+  | none => true
+  | some u => decide (u % 256 + (n - 1) > 255)
+
 /-- close a run: `start` its first entry, `lastX` the last byte of its last code, `more` the
 values after the first (in order) -/
 def tuEmit (key : Bytes) (start : Entry Text) (lastX : Nat) (more : List Text) : Sum TUSingle TURange :=
@@ -387,7 +415,8 @@ def tuEmit (key : Bytes) (start : Entry Text) (lastX : Nat) (more : List Text) :
   | [] => .inl ⟨key ++ [start.x], start.val⟩
   | _ :: _ =>
     .inr ⟨key ++ [start.x], key ++ [lastX],
-          if tuNeedsList start.val 1 more then start.val :: more else [start.val]⟩
+          if tuLastByteOverflows start.val (more.length + 1) || tuNeedsList start.val 1 more
+          then start.val :: more else [start.val]⟩
 
 /-- run detection of `NewToUnicodeFile` over one group (sorted by `x`); `moreRev` holds the
 values of the pending run after the first, in reverse order -/
@@ -457,5 +486,52 @@ def tuItemsFiles : List TUFile → (budget : Nat) → List (Bytes × Text)
 /-- `ToUnicodeFile.All(codec)` -/
 def tuAll (chain : TUChain) (codec : Codec) : Except CErr (List (Nat × Text)) :=
   decodeItems codec (tuItemsFiles chain.reverse Gen.limits_MaxCMapMappings)
+
+/-! ## the writers: blocks of at most `chunkSize` entries (`chunks`, `tuRangeChunks`) -/
+
+/-- `chunks[T]`: `for len(x) >= chunkSize { res = append(res, x[:chunkSize]); x = x[chunkSize:] }`,
+then the non-empty rest -/
+def chunksFuel {α : Type} : (fuel : Nat) → List α → List (List α)
+  | 0, _ => []
+  | fuel + 1, x =>
+    if x.length ≥ Gen.cmap_chunkSize then x.take Gen.cmap_chunkSize :: chunksFuel fuel (x.drop Gen.cmap_chunkSize)
+    else if x.isEmpty then [] else [x]
+
+def chunks {α : Type} (x : List α) : List (List α) := chunksFuel (x.length + 1) x
+
+/-- `tuRangeChunks` (fix D-C13-3): a new block also starts when the PostScript operand stack of a
+reader would grow beyond `maxDepth` = 400 (three objects per pending entry plus the array being
+built).  `lens` are the lengths of the value lists; `cur` is the current block (reversed). -/
+def tuRangeChunksLoop : List Nat → (cur : List Nat) → List (List Nat)
+  | [], cur => if cur.isEmpty then [] else [cur.reverse]
+  | m :: rest, cur =>
+    if cur.length > 0 && (cur.length ≥ Gen.cmap_chunkSize || 3 * cur.length + 3 + m > 400) then
+      cur.reverse :: tuRangeChunksLoop rest [m]
+    else tuRangeChunksLoop rest (m :: cur)
+
+def tuRangeChunks (lens : List Nat) : List (List Nat) := tuRangeChunksLoop lens []
+
+/-- the sizes of the `begin… end…` blocks the CMap template writes (as of the fix D-C13-1 the code
+space ranges are chunked like every other list): code space, cidchar, cidrange, notdefchar,
+notdefrange -/
+def cmapBlockSizes (nCSR nSingles nRanges nNdSingles nNdRanges : Nat) : List (List Nat) :=
+  [nCSR, nSingles, nRanges, nNdSingles, nNdRanges].map fun n =>
+    (chunks (List.replicate n ())).map List.length
+
+/-- the same for the ToUnicode template: code space, bfchar, bfrange (lengths of the value lists) -/
+def tuBlockSizes (nCSR nSingles : Nat) (valueLens : List Nat) : List (List Nat) :=
+  [(chunks (List.replicate nCSR ())).map List.length, (chunks (List.replicate nSingles ())).map List.length,
+   (tuRangeChunks valueLens).map List.length]
+
+/-! ## `ToUnicodeFile.GetMapping` -/
+
+/-- the code space `GetMapping` uses (fix D-C13-5: the whole `usecmap` chain, like `File.Codec`) -/
+def tuChainCodeSpace (chain : TUChain) : CSR := chain.flatMap (·.csr)
+
+/-- `ToUnicodeFile.GetMapping`: `maps.Collect(tu.All(codec))` as the sequence of pairs -/
+def tuGetMapping (chain : TUChain) : Except CErr (List (Nat × Text)) :=
+  match newCodec (tuChainCodeSpace chain) with
+  | .error e => .error e
+  | .ok codec => tuAll chain codec
 
 end PdfVerif.CC
